@@ -94,6 +94,22 @@ fn emit_grid(e: &mut Emit, funcs: &[(&str, fn(TwoFloat) -> TwoFloat)], grids: &[
     }
 }
 
+/// The same functions reached through the num_traits::Float trait (a forwarding slip is invisible to
+/// calls of the inherent methods).
+fn emit_trait_routes(e: &mut Emit, funcs: &[(&str, fn(TwoFloat) -> TwoFloat)], emin: i64, emax: i64, positive: bool) {
+    for _ in 0..e.budget(24_000, 1_200_000) {
+        let a = if e.rng.coin() { special_hi(&mut e.rng) } else { tf_in(&mut e.rng, emin, emax) };
+        let a = if positive { (a.0.abs(), if a.0 < 0.0 { -a.1 } else { a.1 }) } else { a };
+        if !valid_ref(a.0, a.1) {
+            continue;
+        }
+        for (name, f) in funcs {
+            let f = *f;
+            e.ev(name, &tf1(a), || v2(f(t(a))));
+        }
+    }
+}
+
 /// "Special" high words (small integers, halves, powers of two, 1 +- ulp) carrying a non-zero low
 /// word: fast paths that look at the high word only are wrong exactly here.
 fn special_hi(r: &mut Rng) -> W {
@@ -473,6 +489,10 @@ fn exp_args(e: &mut Emit, i: u64) -> W {
 }
 
 pub fn emit_c14(e: &mut Emit) {
+    {
+        use num_traits::Float as F;
+        emit_trait_routes(e, &[("exp", |x| F::exp(x)), ("exp2", |x| F::exp2(x)), ("exp_m1", |x| F::exp_m1(x))], -30, 9, false);
+    }
     let nt = e.budget(3_000_000, 300_000_000);
     triage_unary(e, &[("exp", |x| x.exp(), |x| x.exp()), ("exp_m1", |x| x.exp_m1(), |x| x.exp_m1())], &Dom { emin: -60, emax: 9, lin: &[1.0, 4.0, 40.0, 700.0], positive: false }, nt / 3);
     triage_unary(e, &[("exp2", |x| x.exp2(), |x| x.exp2())], &Dom { emin: -60, emax: 9, lin: &[1.0, 4.0, 40.0, 1000.0], positive: false }, nt / 3);
@@ -695,6 +715,10 @@ pub fn c15(c: &mut Ctx) {
 }
 
 pub fn emit_c15(e: &mut Emit) {
+    {
+        use num_traits::Float as F;
+        emit_trait_routes(e, &[("ln", |x| F::ln(x)), ("log2", |x| F::log2(x)), ("log10", |x| F::log10(x)), ("ln_1p", |x| F::ln_1p(x))], -100, 100, true);
+    }
     let nt = e.budget(3_000_000, 300_000_000);
     triage_unary(e, &[("ln", |x| x.ln(), |x| x.ln()), ("log2", |x| x.log2(), |x| x.log2()), ("log10", |x| x.log10(), |x| x.log10())], &Dom { emin: -1000, emax: 959, lin: &[2.0, 40.0, 1e6], positive: true }, nt / 2);
     triage_unary(e, &[("ln_1p", |x| x.ln_1p(), |x| x.ln_1p())], &Dom { emin: -60, emax: 100, lin: &[0.999, 0.01, 4.0], positive: false }, nt / 2);
@@ -888,6 +912,10 @@ pub fn c16(c: &mut Ctx) {
 }
 
 pub fn emit_c16(e: &mut Emit) {
+    {
+        use num_traits::Float as F;
+        emit_trait_routes(e, &[("sin", |x| F::sin(x)), ("cos", |x| F::cos(x)), ("tan", |x| F::tan(x)), ("sin", |x| F::sin_cos(x).0), ("cos", |x| F::sin_cos(x).1)], -30, 19, false);
+    }
     let nt = e.budget(3_000_000, 300_000_000);
     triage_unary(e, &[("sin", |x| x.sin(), |x| x.sin()), ("cos", |x| x.cos(), |x| x.cos()), ("tan", |x| x.tan(), |x| x.tan())], &Dom { emin: -60, emax: 19, lin: &[1.0, 8.0, 1000.0, 1.0e6], positive: false }, nt);
     emit_grid(e, &[("sin", |x| x.sin()), ("cos", |x| x.cos()), ("tan", |x| x.tan())], &[(0.0, 1.0), (0.0, 40.0), (0.0, 3000.0)], |_| true);
@@ -990,6 +1018,16 @@ pub fn c17(c: &mut Ctx) {
 }
 
 pub fn emit_c17(e: &mut Emit) {
+    {
+        use num_traits::Float as F;
+        emit_trait_routes(e, &[("atan", |x| F::atan(x))], -30, 59, false);
+        emit_trait_routes(e, &[("asin", |x| F::asin(x)), ("acos", |x| F::acos(x))], -30, -1, false);
+        for _ in 0..e.budget(24_000, 1_200_000) {
+            let y = tf_in(&mut e.rng, -30, 29);
+            let x = tf_in(&mut e.rng, -30, 29);
+            e.ev("atan2", &[hx(y.0), hx(y.1), hx(x.0), hx(x.1)], || v2(F::atan2(t(y), t(x))));
+        }
+    }
     let nt = e.budget(3_000_000, 300_000_000);
     triage_unary(e, &[("asin", |x| x.asin(), |x| x.asin()), ("acos", |x| x.acos(), |x| x.acos())], &Dom { emin: -60, emax: -1, lin: &[1.0, 0.6], positive: false }, nt / 3);
     triage_unary(e, &[("atan", |x| x.atan(), |x| x.atan())], &Dom { emin: -60, emax: 59, lin: &[1.0, 3.0, 100.0, 1.0e6], positive: false }, nt / 3);
@@ -1158,6 +1196,12 @@ pub fn c18(c: &mut Ctx) {
 }
 
 pub fn emit_c18(e: &mut Emit) {
+    {
+        use num_traits::Float as F;
+        emit_trait_routes(e, &[("sinh", |x| F::sinh(x)), ("cosh", |x| F::cosh(x)), ("tanh", |x| F::tanh(x)), ("asinh", |x| F::asinh(x))], -30, 9, false);
+        emit_trait_routes(e, &[("atanh", |x| F::atanh(x))], -30, -1, false);
+        emit_trait_routes(e, &[("acosh", |x| F::acosh(x))], 0, 59, true);
+    }
     let nt = e.budget(3_000_000, 300_000_000);
     triage_unary(e, &[("sinh", |x| x.sinh(), |x| x.sinh()), ("cosh", |x| x.cosh(), |x| x.cosh()), ("tanh", |x| x.tanh(), |x| x.tanh())], &Dom { emin: -60, emax: 9, lin: &[0.1, 1.0, 40.0, 600.0], positive: false }, nt / 3);
     triage_unary(e, &[("asinh", |x| x.asinh(), |x| x.asinh())], &Dom { emin: -60, emax: 59, lin: &[1.0, 100.0, 1.0e6], positive: false }, nt / 6);
